@@ -398,6 +398,14 @@ def panel_configs(verif_seed):
     for n, k in ((130, 0), (130, 3), (130, -3), (101, 100), (101, -100), (7, 6), (7, -6)):
         out.append({"recipe": {"k": "generic", "n": n, "dtype": "f8", "seed": g.randrange(1 << 20), "sym": "gen"},
                     "k": k, "rand": g.choice(["normal", "rademacher"]), "max_iters": g.choice([0, 1])})
+    # probe blocks of more than 2^20 entries (n x 100 with n > 10485), in every precision: exactness with Rademacher probes
+    # on a Diagonal operator (no statistics involved), and unbiasedness with normal probes (fewer keys, wider threshold)
+    for dt in ("f4", "f8", "c8"):
+        out.append({"exact": True, "keys": 2, "recipe": {"k": "diag", "n": 10500 + g.randrange(200), "dtype": dt,
+                                                          "seed": g.randrange(1 << 20), "pos": False},
+                    "k": 0, "rand": "rademacher", "max_iters": 1})
+    out.append({"recipe": {"k": "diag", "n": 10500 + g.randrange(200), "dtype": "f4", "seed": g.randrange(1 << 20), "pos": False},
+                "k": 0, "rand": "normal", "max_iters": 1, "K": 48, "T": 10.0})
     return out + panel_configs_structured(verif_seed)
 
 
@@ -608,8 +616,8 @@ def path_programs_c17():
 def large_programs_c17():
     out = []
 
-    def prog(name, n, fn, gen=False, **kw):
-        A = {"k": "ann", "name": "PSD", "of": {"k": "diag", "n": n, "dtype": "f8", "seed": 5, "pos": True}}
+    def prog(name, n, fn, gen=False, dtype="f8", **kw):
+        A = {"k": "ann", "name": "PSD", "of": {"k": "diag", "n": n, "dtype": dtype, "seed": 5, "pos": True}}
         if gen:  # no structural diag/trace/eig rule: a user operator computing a diagonal product
             A = {"k": "ann", "name": "PSD", "of": {"k": "no_dispatch", "of": A["of"]}}
         c = {"op": "call", "fn": fn, "args": dict({"A": {"slot": "A0"}}, **kw)}
@@ -642,6 +650,10 @@ def large_programs_c17():
     prog("trace_auto_n1001_key", 1001, "trace_auto", gen=True, tol=0.5, max_iters=1, key=5)
     prog("eig_auto1_n1001", 1001, "eig_auto1", gen=True, max_iter=3)
     prog("eig_default_large_sa", 1001, "eig", gen=True, k=2, which="LM", alg="Auto", akw={"max_iters": 5})
+    # single precision and complex above the 2^20-entry mark
+    prog("hutch_f4_n10500", 10500, "hutch", dtype="f4", tol=0.5, max_iters=1, key=3, k=0)
+    prog("hutch_c8_rademacher_n10500", 10500, "hutch", dtype="c8", tol=0.5, max_iters=1, key=4, k=0, rand="rademacher")
+    prog("lanczos_f4_n2p20", 2**20 + 5, "lanczos", dtype="f4", max_iters=1, key=3)
     prog("hutch_n101", 101, "hutch", tol=0.5, max_iters=2, key=3, k=0)
     prog("hutch_n1000", 1000, "hutch", tol=0.5, max_iters=1, key=3, k=-3)
     return out
